@@ -12,7 +12,7 @@ import (
 // runSessions: the session stream of the run (see sessgen.go for the generator).
 func runSessions(r *core.Run) {
 	rd := r.Rand
-	n := r.N(300, 3000)
+	n := r.N(300, 6000)
 	if v := os.Getenv("VERIF_C16_SESSIONS"); v != "" {
 		n = core.Atoi(v)
 	}
